@@ -47,11 +47,18 @@ static void variant_override(Store &st, const Fault &f) {
             if (be16(&t[starts]) == 0 && be16(&t[ends]) == 0 && be16(&t[starts + 2]) > 1 && be16(&t[iro]) == 0) { t[ends + 1] = 1; any = true; }
         }
         if (any) probe("variant:cmap-maps-0-and-1");
+    } else if (f.kind == "OVR_NAMEFMT1") {
+        // the same name table in format 1 (a langTagCount of 0 between the records and the strings): legal OpenType
+        auto it = st.tables.find(mktag("name")); if (it == st.tables.end()) return; Bytes &t = it->second; if (t.size() < 6 || be16(&t[0]) != 0) return;
+        size_t cnt = be16(&t[2]), so = be16(&t[4]), rec_end = 6 + 12 * cnt; if (so < rec_end || so > t.size() || so + 2 > 0xFFFF) return;
+        Bytes n(t.begin(), t.begin() + long(rec_end)); n[1] = 1; n.push_back(0); n.push_back(0); n.insert(n.end(), t.begin() + long(rec_end), t.end());
+        unsigned nso = unsigned(so + 2); n[4] = u8(nso >> 8); n[5] = u8(nso & 0xFF);
+        t = n; probe("variant:name-format-1");
     }
 }
 
 void all_overrides(Store &st, const Fault &f) {
-    if (f.kind == "OVR_NOSUBBOX" || f.kind == "OVR_CMAP01") variant_override(st, f);
+    if (f.kind == "OVR_NOSUBBOX" || f.kind == "OVR_CMAP01" || f.kind == "OVR_NAMEFMT1") variant_override(st, f);
     else if (f.kind == "OVR_FEAT") feat_override(st, f);
     else if (f.kind == "OVR_SILF" || f.kind == "OVR_SILFPROG") silf_override(st, f);
     else lz4_override(st, f);      // OVR_LZ4, OVR_RELABEL5, OVR_PLAIN, OVR_FORCED
@@ -192,7 +199,7 @@ static Plan gen_just(u64 seed) {
     Op mf = gen_make_face(r, font, 30, true, false);
     if (synth) { Fault f; f.kind = "OVR_SILFPROG"; f.tag = "Silf"; synth_program(r.next(), f.a); mf.faults.push_back(f); }
     p.ops.push_back(mf);
-    if (r.chance(1, 2)) p.ops.push_back(mk("make_font", {0, i64(16 * (4 + r.below(100)))}));
+    if (r.chance(1, 2)) p.ops.push_back(mk("make_font", {0, i64(16 * (4 + r.below(100))), r.chance(1, 3) ? 1 : 0}));     // a[2]: hinted (advance callback)
     Op o; o.kind = "make_seg"; o.a = {0, r.chance(1, 2) ? 0 : -1, i64(1 << r.below(3)), i64(r.below(8)), 0, -1};
     o.text = synth ? synth_text(r, 30) : gen_text(r, font, g_tier ? 120 : 40, r.chance(1, 4));
     if (o.text.size() > 3 && r.chance(1, 2)) for (size_t k = 3 + r.below(5); k < o.text.size(); k += 3 + r.below(7)) o.text[k] = ' ';
@@ -264,6 +271,17 @@ static Plan gen_hist(u64 seed) {
     if (shared_font) { pr.kind = "job_seg"; pr.a[1] = 0; }
     if (g_pseudo_bias && g_pseudo_focus && g_pseudo_focus < 0x110000) { pr.text.insert(pr.text.begin() + long(r.below(u32(pr.text.size() + 1))), g_pseudo_focus); if (pr.text.size() < 2) pr.text.insert(pr.text.begin(), 0x61); }
     if (synth) { for (auto &o : p.ops) if (!o.text.empty() && (o.kind == "make_seg" || o.kind == "probe_seg" || o.kind == "job_seg")) o.text = synth_text(r, 24); pr.text = synth_text(r, 24); }
+    if (!synth && r.chance(1, 10)) {
+        // mirrored pairs: the probe holds one bracket of a pair and runs right-to-left without the bidi pass (direction flags 3 / 7: the
+        // engine mirrors by itself); somewhere in the history the other bracket was shaped. Mirroring must not depend on that.
+        static const u32 pairs[][2] = {{'(', ')'}, {'[', ']'}, {'{', '}'}, {'<', '>'}, {0xAB, 0xBB}, {0x2039, 0x203A}};
+        const u32 *pp = pairs[r.below(6)]; const unsigned side = r.below(2);
+        pr.text.insert(pr.text.begin() + long(r.below(u32(pr.text.size() + 1))), pp[side]);
+        pr.text.erase(std::remove(pr.text.begin(), pr.text.end(), pp[1 - side]), pr.text.end());
+        pr.a[3] = r.chance(1, 2) ? 3 : 7;
+        Op h; h.kind = "make_seg"; h.a = {0, -1, 1, i64(r.below(8)), 0, -1}; h.text = {pp[1 - side], 0x20, pp[side], pp[1 - side]};
+        if (p.ops.size() > 2) p.ops.insert(p.ops.begin() + long(2 + r.below(u32(p.ops.size() - 2))), h); else p.ops.push_back(h);
+    }
     p.ops.push_back(pr); p.ops.push_back(pr); p.ops.push_back(rep);
     g_pseudo_bias = 0; g_pseudo_focus = 0;
     return p;
@@ -307,14 +325,16 @@ static Plan gen_conf(u64 seed) {
     unsigned k = 1 + r.below(3);
     for (unsigned i = 0; i < k; ++i) p.ops.push_back(gen_make_face(r, font, 0, true, true));
     for (size_t i = 1; i < p.ops.size(); ++i) p.ops[i].a[2] &= 7;     // only defined option bits: the property speaks of the documented options
-    bool cmap01 = false;
+    bool cmap01 = false, namefmt1 = false;
     {   // a legal variant of the font's storage, the same for every face of the plan
         u32 v = r.below(16);
         const bool awami = font.find("Awami") == 0;
         if ((awami && v < 4) || v == 0) { Fault f; f.kind = "OVR_NOSUBBOX"; f.tag = "Glat"; for (auto &o : p.ops) o.faults.push_back(f); }
+        else if (v == 3) { Fault f; f.kind = "OVR_NAMEFMT1"; f.tag = "name"; for (auto &o : p.ops) o.faults.push_back(f); namefmt1 = true; }
         else if (v == 1 || v == 2) { Fault f; f.kind = "OVR_CMAP01"; f.tag = "cmap"; for (auto &o : p.ops) o.faults.push_back(f); cmap01 = true; }
     }
     unsigned n = g_tier ? 5 + r.below(26) : 4 + r.below(10);
+    if (namefmt1) for (int q = 0; q < 3; ++q) p.ops.push_back(mk("label", {0, i64(r.below(8)), i64(r.below(3)) - 1, i64(1 << r.below(3)), 0x0409}));
     if (cmap01) { Op o = mk("face_query", {0, 7, 0}); o.text = {0, 1, 2, 3, 0xFFFF, 0x10000}; p.ops.push_back(o); }     // the lowest code points: is every one of them reported alike?
     for (unsigned i = 0; i < n; ++i) {
         u32 c = r.below(10);
